@@ -975,9 +975,10 @@ def run_actions(acts, types, variant, plans, observe=True):
 def replay_group(job):
     """job: actions (without exp), strict alternatives, dev alternatives (prefix-indexed), shape, variant, pick
     returns list of results, one per concrete run"""
-    acts, alts, types, variant, pick, nchunks, want_trace = job
+    acts, alts, devalts, types, variant, pick, nchunks, want_trace = job
     acts = json.loads(acts)
     alts = [json.loads(a) for a in alts]
+    devalts = None if devalts is None else [json.loads(a) for a in devalts]
     results = []
     # resolve abstract fault positions to concrete FS calls, one faulted step after the other
     plansets = [{}]
@@ -1016,6 +1017,15 @@ def replay_group(job):
                     b = boots[nth - 1]
                     if b + 1 < len(evs) and evs[b + 1]['ev'] == 'start':
                         res['start_events'] = [evs[b], evs[b + 1]]
+                        del res['bad']['obs']
+                elif devalts is not None:
+                    # explained from the first to the last step by the recorded deviation (as-implemented variant)?
+                    best = max((next((j for j in range(len(acts)) if not _match(e[j], obs[j])), len(acts))
+                                for e in devalts), default=0)
+                    res['bad'] = {'step': k, 'diff': res['bad']['diff'], 'outcome': outs[k], 'dev_matched': best,
+                                  'dev_n': len(acts), **({} if best == len(acts) else
+                                                         {'observed': obs[min(best, len(acts) - 1)],
+                                                          'expected': res['bad']['expected'][:2]})}
                 break
             live = nxt
         for k, pl in plans.items():
@@ -1388,6 +1398,9 @@ def _gen_pass(chk, name, cfg, nchunks, shapes_per, want_traces, tracebag, strict
     quick = chk.tier == 'quick'
     r, nbeh, groups = strict.result()
     chk.add_tlc(r)
+    rd, _, dgroups = deviating.result()
+    chk.add_tlc(rd)
+    dev = DevIndex(dgroups)
     rnd = random.Random(chk.seed * 7919 + len(groups))
     jobs = []
     three = '"P3"' in next(iter(groups))
@@ -1395,11 +1408,11 @@ def _gen_pass(chk, name, cfg, nchunks, shapes_per, want_traces, tracebag, strict
         for sh in range(shapes_per):
             k = rnd.randrange(1 << 30)
             types = SHAPES[(gi + sh * 5 + chk.seed) % len(SHAPES)][:3 if three else 2]
-            jobs.append((key, sorted(alts), types, k, (k if quick else None), nchunks, (gi + sh) % want_traces == 0))
+            jobs.append((key, sorted(alts), (sorted(dgroups[key]) if key in dgroups else None), types, k,
+                         (k if quick else None), nchunks, (gi + sh) % want_traces == 0))
     sample = json.loads(jobs[len(jobs) // 2][0]) if jobs else None
     del groups
     res = pool_map(replay_group, jobs)
-    dev = None
     nbad = 0
     for job, runs in zip(jobs, res):
         acts = None
@@ -1413,10 +1426,10 @@ def _gen_pass(chk, name, cfg, nchunks, shapes_per, want_traces, tracebag, strict
                 chk.notes['unmapped_fault_positions'] = chk.notes.get('unmapped_fault_positions', 0) + 1
                 continue
             chk.impl_traces += 1
-            chk.case(hash((job[0], job[2], json.dumps(x['plans'], sort_keys=True))),
+            chk.case(hash((job[0], job[3], json.dumps(x['plans'], sort_keys=True))),
                      '"crash"' in job[0] or '"ioerror"' in job[0] or '"corrupt"' in job[0])
             if x.get('trace'):
-                tracebag.append({'gen': ['gen', name, acts, list(job[2]), job[3], x['plans']],
+                tracebag.append({'gen': ['gen', name, acts, list(job[3]), job[4], x['plans']],
                                  'types': x['types'], 'trace': x['trace']})
             bad = x['bad']
             if not bad:
@@ -1424,18 +1437,17 @@ def _gen_pass(chk, name, cfg, nchunks, shapes_per, want_traces, tracebag, strict
             nbad += 1
             if 'machinery' in bad:
                 raise MachineryError(f"{bad['machinery']}: {acts} {x['plans']}")
-            detail = {'kind': 'gen', 'cfg': cfg, 'actions': acts, 'types': list(job[2]), 'variant': job[3],
+            detail = {'kind': 'gen', 'cfg': cfg, 'actions': acts, 'types': list(job[3]), 'variant': job[4],
                       'plans': x['plans'], 'failed': {k: v for k, v in bad.items() if k != 'obs'}}
             if acts[bad['step']]['act'] == 'start' and x.get('start_events'):
                 sig = start_signature(x['start_events'][0], x['start_events'][1], x['types'])
                 chk.violation(sig, detail)
                 continue
             # is the run explained by the recorded deviation?  (Gen with Dev = {"BelieveEarly"})
-            if dev is None:
-                rd, _, dgroups = deviating.result()
-                chk.add_tlc(rd)
-                dev = DevIndex(dgroups)
-            matched, n = dev.explains(acts, bad['obs'], bad['step'] + 1)
+            if 'dev_matched' in bad:
+                matched, n = bad['dev_matched'], bad['dev_n']
+            else:
+                matched, n = dev.explains(acts, bad['obs'], bad['step'] + 1)
             sig = _step_signature(acts, bad)
             if matched == n and n > bad['step']:
                 sig['deviation'] = 'Dev_BelieveEarly'
@@ -1521,8 +1533,8 @@ def _chunks(n, size):
 
 # (Gen configuration, datatype shapes per behaviour, every n-th execution also goes to trace validation)
 GEN_PLAN = {'quick': [('Gen_Persistent', 1, 5), ('Gen_PersistentC', 2, 5)],
-            'thorough': [('Gen_Persistent', 2, 150), ('Gen_PersistentB', 3, 40), ('Gen_PersistentM', 1, 80),
-                         ('Gen_PersistentC', 6, 20)]}
+            'thorough': [('Gen_Persistent', 1, 150), ('Gen_PersistentB', 3, 40), ('Gen_PersistentM', 1, 80),
+                         ('Gen_PersistentC', 3, 20)]}
 
 
 def run(chk):
